@@ -75,15 +75,11 @@ Theorem C06_receiver_accept_shape : skel_defaultReceiver_accept =
   ["call measure"; "call mu.Lock"; "defer call mu.Unlock"; "set currentWindow"; "call items.Len"; "call items.PushBack"; "call cond.Signal"].
 Proof. exact defaultReceiver_accept_shape. Qed.
 Print Assumptions C06_receiver_accept_shape.
-Theorem C06_receiver_dequeue_shape : skel_defaultReceiver_dequeue =
-  ["defer func"; "call mu.Lock"; "defer call mu.Unlock"; "call items.Front"; "call items.Remove"; "call measure"; "set currentWindow"; "call cond.Wait"].
-Proof. exact defaultReceiver_dequeue_shape. Qed.
-Print Assumptions C06_receiver_dequeue_shape.
 
 (* which expression sizes each window in the source (see theories/SkelWindows.v) *)
 From GT Require Import SkelWindows.
 Theorem C06_windows_as_advertised : window_args =
   [("server.sender", "frame.InitialWindowSize"); ("server.receiver", "initialWindowSize");
-   ("client.sender", "c.settings.InitialWindowSize"); ("client.receiver", "initialWindowSize")].
+   ("client.sender", "settings.InitialWindowSize"); ("client.receiver", "initialWindowSize")].
 Proof. exact windows_as_advertised. Qed.
 Print Assumptions C06_windows_as_advertised.
